@@ -123,6 +123,50 @@ def run(ck):
             ck.count("append_file:orig_empty" if k0 == 0 else "append_file")
         except Exception as e:
             ck.fail(f"append session raised {type(e).__name__}: {e}", dict(inp, original_points=k0))
+        # a header that described a file with EVLRs, reused for a file without them (the user dropped them, or copies the
+        # points only): the new file's header must describe the new file
+        if minor >= 4 and evlrs:
+            ck.count("header_reused_without_evlrs")
+            try:
+                src = laspy.read(io.BytesIO(one.getvalue()))
+                src.evlrs.clear()
+                again = io.BytesIO()
+                src.write(again)
+                check_file(ck, again.getvalue(), las, arr, None, dict(inp, scenario="read, EVLRs cleared, written"), "file rewritten without its EVLRs")
+                out2 = io.BytesIO()
+                with laspy.open(io.BytesIO(one.getvalue())) as rd:
+                    with laspy.open(out2, mode="w", header=rd.header, closefd=False) as w:
+                        for chunk in rd.chunk_iterator(max(1, n // 2)):
+                            w.write_points(chunk)
+                check_file(ck, out2.getvalue(), las, arr, None, dict(inp, scenario="points-only copy with the reader's header"), "points-only copy of a file with EVLRs")
+            except Exception as e:
+                ck.fail(f"rewriting without EVLRs raised {type(e).__name__}: {e}", inp)
+        # chunks given as scale-aware records in another scaling than the file's: the writer rescales them, and the header
+        # must describe what was stored (statistics recomputed from the records read back)
+        if n > 0 and ci % 2 == 0:
+            ck.count("chunks_in_foreign_scaling")
+            try:
+                small = arr.copy()
+                for d in "XYZ":
+                    small[d] = np.array([ck.rng.randrange(-50000, 50000) for _ in range(n)], dtype="i4")
+                hdr2 = fio.make_las(ck.rng, minor, fmt, 0, scales=[0.5, 0.25, 1.0], offsets=[0.0, 16.0, -8.0]).header
+                from laspy.laswriter import LasWriter
+                buf = io.BytesIO()
+                w = LasWriter(buf, hdr2, closefd=False)
+                pos, used = 0, []
+                for pp in c04.rand_partition(ck.rng, n):
+                    sc2, of2 = ck.rng.choice([([0.5, 0.25, 1.0], [0.0, 16.0, -8.0]), ([0.25, 0.5, 2.0], [4.0, 0.0, 8.0]), ([1.0, 1.0, 0.5], [-32.0, 64.0, 0.0])])
+                    used.append((pp, sc2, of2))
+                    w.write_points(laspy.ScaleAwarePointRecord(small[pos:pos + pp].copy(), hdr2.point_format, np.array(sc2), np.array(of2)))
+                    pos += pp
+                w.close()
+                back = laspy.read(io.BytesIO(buf.getvalue()))
+                inp2 = dict(inp, scenario="chunks in foreign scaling", chunk_scalings=[(a, b_, c_) for a, b_, c_ in used], XYZ=[small[d].tolist() for d in "XYZ"])
+                check_file(ck, buf.getvalue(), back, back.points.array, None, inp2, f"file written from chunks in other scalings {[u[0] for u in used]}")
+            except OverflowError:
+                ck.count("foreign_scaling_overflow")
+            except Exception as e:
+                ck.fail(f"writing chunks in another scaling raised {type(e).__name__}: {e}", inp)
         # model: in-memory statistics of the same records
         f = fio.header_fields(las.header)
         lines.append("file stats " + fio.hdr_line(f) + f" -- {las.header.point_format.size} {hx(arr.tobytes())}")
